@@ -238,7 +238,7 @@ template<typename Ad, typename Tr> static void run_case(int dist, size_t logStar
 		if (kit::summary() != "0 0 0") oracle.push_back("kit summary (live blocks, live objs, errors) = " + kit::summary() + (W().errors.empty() ? "" : ": " + W().errors[0]));
 		outp += " # " + (oracle.empty() ? std::string("OK") : "FAIL " + oracle[0]);
 	}
-	puts(outp.c_str());
+	puts(outp.c_str()); fflush(stdout);
 }
 
 template<typename HB> static bool run_kind(const std::string& keycat, const std::string& sm, int dist, size_t ls, const std::vector<std::string>& ops, bool sched)
